@@ -124,6 +124,8 @@ def main() -> int:
                 mod.run(out)
                 out.count("extra_rounds")
             out.seed = seed
+            if getattr(mod, "RULE_ADDENDA", None):
+                out.rule += "; also: " + mod.RULE_ADDENDA
             import dets as dets_mod
             for cls_f, params_f, why_f in dets_mod.FAILED_CONSTRUCTIONS[:5]:
                 out.violation(f"{cls_f}: a configuration meant to be valid (defaults or generated inside the documented domains) was rejected by the constructor: {why_f}",
